@@ -19,6 +19,10 @@ GEN_FUNS = ['engine.YP.query', 'engine.YP.call', 'engine.YP.once', 'engine.YP.fi
 
 def engine_deductive(rep, targets, heap_lemmas=True, term_lemmas=False):
     fw.deductive(rep, targets, ['engine_heap'], ['terms.smt2', 'heap.smt2'], theory=EngineTheory)
+    # A-PY-CLASSES as obligations: the classes of engine.py define no special method that changes what ==, in, object creation,
+    # attribute access ... mean in the verification conditions, and no function is replaced by a decorator
+    from . import syntactic
+    syntactic.no_operator_overloading(rep, 'engine')
     if heap_lemmas:
         fw.add_smt(rep, lemmas.prove_heap_lemmas(), 'spec.heap-lemmas')
         rep.lemmas.append('L-RN-MONO, L-RN-LEN, L-RN-FRESH (fresh copies allocate upwards, keep the length, contain only new '
